@@ -63,3 +63,39 @@ pub fn yes() -> bool {
 pub fn no() -> bool {
     false
 }
+
+/// `memchr::memmem::Finder::find` by its documented contract: the first
+/// occurrence of the needle.
+pub fn memmem_find(f: &memchr::memmem::Finder<'_>, hay: &[u8]) -> Option<usize> {
+    let nd = f.needle();
+    if nd.len() > hay.len() {
+        return None;
+    }
+    let mut i = 0;
+    while i + nd.len() <= hay.len() {
+        let mut k = 0;
+        let mut ok = true;
+        while k < nd.len() {
+            if hay[i + k] != nd[k] {
+                ok = false;
+            }
+            k += 1;
+        }
+        if ok {
+            return Some(i);
+        }
+        i += 1;
+    }
+    None
+}
+
+/// Keeps the packed searcher (SIMD code) out of harnesses whose prefilter is
+/// not a packed one: the `Arc<dyn PrefilterI>` call makes CBMC explore every
+/// implementor. Reaching this stub is a failed check.
+pub fn packed_unused<B: AsRef<[u8]>>(
+    _s: &aho_corasick::packed::Searcher,
+    _haystack: B,
+    _span: aho_corasick::Span,
+) -> Option<aho_corasick::Match> {
+    unreachable!("packed searcher used in a harness that stubs it out")
+}
